@@ -1,6 +1,8 @@
 """C06 — time limiter: generator, implementation-side monitors
 
 header: timelimiter timeout=<ms> cancel=<0|1> dyn=<0|1>
+   or:  timelimiter chain=<s1,s2,…>   the builder chain itself, left to right: d<ms> = timeout_duration, f<ms> = timeout_fn
+        (requests without their own timeout get <ms>), c0/c1 = cancel_running_future(false/true); `chain=-` = no setter
 ops:    arrive <c> [timeout=<ms>] inner=<lat>:<out> | poll <c> | drop <c> | adv <ms> | settle | dropall
 
 Facts about the real layer the monitors rely on (read off lib.rs, not off the Lean model):
@@ -43,11 +45,76 @@ def _outcome(rng):
     return "panic"
 
 
+U64MAX = 2 ** 64 - 1
+HUGE = [U64MAX, U64MAX - 1, 2 ** 63, 10 ** 13, 4102444800000]
+FAR = 10 ** 6          # beyond this a timeout / deadline is "never reached" as far as the generator's clock goes
+
+
+def _timeout_value(rng):
+    if rng.random() < 0.06:
+        return rng.choice(HUGE)
+    return rng.choice([0, 1, 2, 5, 10, 10, 20, rng.randint(1, 40), rng.randint(1, 40)])
+
+
+def parse_chain(text):
+    """the configuration a builder chain asks for: every field is the one set last (defaults: fixed 5 s, cancelling).
+    Stated from the builder's documentation, not from the Lean model."""
+    T, cancel, dyn = 5000, True, False
+    last_src = last_flag = None
+    for i, it in enumerate(text.split(",")):
+        head, arg = it[:1], it[1:]
+        if not (arg.isascii() and arg.isdigit()):
+            continue
+        if head == "d":
+            T, dyn, last_src = int(arg), False, i
+        elif head == "f":
+            T, dyn, last_src = int(arg), True, i
+        elif head == "c" and int(arg) <= 1:
+            cancel, last_flag = int(arg) == 1, i
+    return T, cancel, dyn, last_src, last_flag
+
+
+def _gen_chain(rng):
+    """a random builder chain: 0..5 setters in any order, repeated setters (the later one overrides), and with
+    emphasis on the two orders of {flag, timeout source}"""
+    r = rng.random()
+    T = _timeout_value(rng)
+    src = ("f%d" if rng.random() < 0.6 else "d%d") % T
+    flag = "c%d" % (0 if rng.random() < 0.7 else 1)
+    if r < 0.30:
+        items = [flag, src]
+    elif r < 0.50:
+        items = [src, flag]
+    elif r < 0.56:
+        items = [src]
+    elif r < 0.60:
+        items = [flag]
+    elif r < 0.63:
+        items = []
+    else:
+        items = []
+        for _ in range(rng.randint(2, 5)):
+            q = rng.random()
+            if q < 0.30:
+                items.append("d%d" % _timeout_value(rng))
+            elif q < 0.60:
+                items.append("f%d" % _timeout_value(rng))
+            else:
+                items.append("c%d" % rng.choice([0, 0, 1]))
+    return ",".join(items) if items else "-"
+
+
 def gen(rng, tier):
-    T = rng.choice([0, 1, 2, 5, 10, 10, 20, rng.randint(1, 40), rng.randint(1, 40)])
-    cancel = rng.choice([0, 1])
-    dyn = rng.choice([0, 1])
-    header = "timelimiter timeout=%d cancel=%d dyn=%d" % (T, cancel, dyn)
+    if rng.random() < 0.55:
+        chain = _gen_chain(rng)
+        T, cancel, dyn, _, _ = parse_chain(chain)
+        cancel, dyn = int(cancel), int(dyn)
+        header = "timelimiter chain=%s" % chain
+    else:
+        T = _timeout_value(rng)
+        cancel = rng.choice([0, 1])
+        dyn = rng.choice([0, 1])
+        header = "timelimiter timeout=%d cancel=%d dyn=%d" % (T, cancel, dyn)
     ncall = rng.randint(1, 6)
     pending = list(range(1, ncall + 1))
     ops = []
@@ -64,7 +131,8 @@ def gen(rng, tier):
         polled.add(c)
         if lat[c] is not None:
             marks.append(now + lat[c])
-        marks.append(now + eff[c])
+        if eff[c] < FAR:
+            marks.append(now + eff[c])
 
     nsteps = rng.randint(6, 40)
     for _ in range(nsteps):
@@ -75,11 +143,13 @@ def gen(rng, tier):
             t_eff = T
             if rng.random() < (0.75 if dyn else 0.25):
                 tr = rng.choice([0, 1, 3, 5, 8, 10, 15, rng.randint(0, 40)])
+                if rng.random() < 0.07:
+                    tr = rng.choice(HUGE)
                 words.append("timeout=%d" % tr)
                 if dyn:
                     t_eff = tr
             out = _outcome(rng)
-            la = _lat_near(rng, t_eff)
+            la = _lat_near(rng, t_eff) if t_eff < FAR else rng.choice([0, 1, 5, rng.randint(0, 60)])
             if out == "never" and cancel and rng.random() < 0.5:
                 # an inner future that never completes AND exhausts tokio's cooperative budget on every poll:
                 # the deadline must still fire (tokio's `timeout` polls its timer unconstrained in that case)
@@ -95,7 +165,7 @@ def gen(rng, tier):
                 ops.append("poll %d" % c)
                 first_poll(c)
             elif rng.random() < 0.5:
-                d = rng.choice([1, 2, 5, eff[c], eff[c] + 1])
+                d = rng.choice([1, 2, 5, eff[c], eff[c] + 1] if eff[c] < FAR else [1, 2, 5, 50])
                 ops.append("adv %d" % d)
                 now += d
         elif r < 0.52 and arrived:
@@ -138,6 +208,9 @@ def gen(rng, tier):
 
 def _cfg(case):
     cfg = kvs(case["header"])
+    if "chain" in cfg:
+        T, cancel, dyn, _, _ = parse_chain(cfg["chain"])
+        return T, cancel, dyn
     return int(cfg.get("timeout", "5000")), cfg.get("cancel", "1") != "0", cfg.get("dyn", "0") != "0"
 
 
@@ -435,6 +508,20 @@ def transitions(case, lines, meta=None):
     T, cancel, dyn = _cfg(case)
     script = _script(case)
     tags = ["mode-cancel" if cancel else "mode-nocancel", "source-per-request" if dyn else "source-fixed"]
+    chain = kvs(case["header"]).get("chain")
+    if chain is not None:
+        _, _, _, ls, lf = parse_chain(chain)
+        if ls is not None and lf is not None:
+            tags.append("chain-flag-before-source" if lf < ls else "chain-source-before-flag")
+            if lf < ls and not cancel:
+                tags.append("chain-c0-before-timeout_fn" if dyn else "chain-c0-before-timeout_duration")
+        if ls is None:
+            tags.append("chain-default-source")
+        if lf is None:
+            tags.append("chain-default-mode")
+        n = len([x for x in chain.split(",") if x[:1] in "dfc" and x[1:].isdigit()])
+        if n > (ls is not None) + (lf is not None):
+            tags.append("chain-overridden-setter")
     call = {}
     result = {}
     dropped_by_caller = set()
@@ -454,6 +541,9 @@ def transitions(case, lines, meta=None):
             t_eff, la, out, ta = script[c]
             if t > ta:
                 tags.append("first-poll-after-creation")
+                if la is not None and 0 < la < t_eff and t - ta > t_eff - la:
+                    # finishes in time counted from the first poll; a deadline counted from call() would already be over
+                    tags.append("first-poll-later-than-slack")
             if la is None:
                 tags.append("lat-never")
             elif la + 1 == t_eff:
@@ -464,6 +554,10 @@ def transitions(case, lines, meta=None):
                 tags.append("lat=timeout+1")
             if t_eff == 0:
                 tags.append("timeout-zero")
+            if t_eff >= FAR:
+                tags.append("timeout-huge")
+            if dyn and t_eff != T:
+                tags.append("own-timeout-differs-from-default")
         elif w[0] == "inner_drop":
             tags.append("inner-dropped-by-caller" if c in dropped_by_caller or (has_dropall and c not in result) else "inner-dropped")
         elif w[0] == "inner_done" and not cancel:
@@ -500,7 +594,10 @@ def transitions(case, lines, meta=None):
 
 
 ALL = ["mode-cancel", "mode-nocancel", "source-per-request", "source-fixed", "first-poll-after-creation",
-       "lat-never", "lat=timeout-1", "lat=timeout", "lat=timeout+1", "timeout-zero",
+       "first-poll-later-than-slack", "chain-flag-before-source", "chain-source-before-flag", "chain-c0-before-timeout_fn",
+       "chain-c0-before-timeout_duration", "chain-default-source", "chain-default-mode", "chain-overridden-setter",
+       "lat-never", "lat=timeout-1", "lat=timeout", "lat=timeout+1", "timeout-zero", "timeout-huge",
+       "own-timeout-differs-from-default",
        "inner-dropped-by-caller", "cancel-drop-at-timeout", "detached-done-after-timeout",
        "detached-done-maybe-after-drop", "result-ok", "result-err", "result-timeout", "result-panic",
        "resolved-at-first-poll", "tie-timeout", "tie-inner", "late-poll-intime-inner",
@@ -535,10 +632,12 @@ SPECS = {
         "lean_files": ["TR.Model.TimeLimiter", "TR.Lemmas.TimeLimiter"],
         "sizes": (800, 40000),
         "rule": "seeded random op sequences (arrive/poll/drop/adv/settle/dropall) over 1..6 callers, both cancellation modes, fixed and "
-                "per-request timeouts 0..40 ms, latencies at timeout-1/timeout/timeout+1/0/random/never, ok/err (few panics), creation "
+                "per-request timeouts 0..40 ms and (6-7%) huge ones up to u64::MAX ms, the layer configured either by timeout/cancel/dyn or (55%) "
+                "by an explicit builder chain of 0..5 setters (timeout_duration / timeout_fn / cancel_running_future in any order, repeated, "
+                "both orders of flag and source, empty chain = defaults), latencies at timeout-1/timeout/timeout+1/0/random/never, ok/err (few panics), creation "
                 "separated from the first poll, advances biased to done/deadline -1/0/+1 and to jumps over both (late polls); distinct = "
                 "distinct implementation event log; non-trivial = a timeout, a tie, a late poll, a dropped or detached inner call",
-        "level_text": "Theorems TR.Props.C06.{timeout_source, deadline_from_first_poll, resolves_from_wake, resolves_by_deadline, "
+        "level_text": "Theorems TR.Props.C06.{builder_mode_last_wins, builder_source_last_wins, nocancel_chain_never_drops, timeout_source, deadline_from_first_poll, resolves_from_wake, resolves_by_deadline, "
                       "pending_before_wake, settled_none_overdue, never_resolves_early, inner_wins_whenever_observed, "
                       "result_if_earlier, intime_result_never_lost, timeout_if_later, cancel_drops_at_deadline, "
                       "nocancel_runs_to_completion, nocancel_timeout_leaves_task, independent}: for every configuration (any fixed or "
@@ -547,7 +646,8 @@ SPECS = {
                       "when polled late) and with the timeout error when only the deadline has passed; a call that finished before its "
                       "deadline is never reported as timed out; in cancel mode the inner future is dropped in the step that reports the timeout; in "
                       "non-cancel mode it is never dropped and completes at its latency whatever happens to the caller; each caller's "
-                      "record and history equal those of a single-caller run. The model is tied to the real TimeLimiterLayer by "
+                      "record and history equal those of a single-caller run; the configuration a builder chain produces has, for the mode "
+                      "and for the timeout source, the value set last, wherever the other setters stand. The model is tied to the real TimeLimiterLayer by "
                       "line-for-line agreement of event logs on generated schedules.",
         "level_note": LEVEL_NOTE,
         "trusted": ["tokio time::timeout / spawn / oneshot / select! / timer-wheel order as transcribed in TR.Model.TimeLimiter (sampled by the correspondence check)",
